@@ -182,7 +182,8 @@ def run_case(item):
                 row['v'] = sorted(ids[t] for t in set(oracle.tokenize(v)))
     rec = {'tid': tid, 'kind': case['kind'], 'op': case['op'], 't': case['t'], 'am': case['am'],
            'sc': case.get('sc', 0), 'simkind': case['simkind'], 'simtab': case.get('simtab', []),
-           'filt': case.get('filt', 'NONE'), 'L': lrows, 'R': rrows, 'fp': [],
+           'filt': case.get('filt', 'NONE'), 'meas': case.get('meas', ''), 'ae': int(case.get('ae', 1)),
+           'L': lrows, 'R': rrows, 'fp': [],
            'lkey': 'id', 'rkey': 'id', 'lpre': case.get('lpre', 'l_'), 'rpre': case.get('rpre', 'r_'),
            'lcols': list(ltable.columns), 'rcols': list(rtable.columns),
            'lout': list(case.get('lout') or []), 'rout': list(case.get('rout') or []),
